@@ -37,14 +37,17 @@ def omittedOK (pts : Array Pt) (thr2 : Rat) : List Nat → Bool
         | _, _, _ => false) && omittedOK pts thr2 (j :: rest)
   | _ => true
 
-def verdict (pts : Array Pt) (thr : Rat) (idx idx2 : List Nat) : String :=
+/-- `slack` is zero on the integer grids of the property's domain (where every difference is exact);
+for inputs off those grids — ordinates 2^-1000 apart next to whole numbers — it is 10⁻⁹ of the
+coordinate scale, as for the distance functions of C15. -/
+def verdict (pts : Array Pt) (thr : Rat) (idx idx2 : List Nat) (slack : Rat := 0) : String :=
   let n := pts.size
   if n < 3 then (if idx == List.range n then "ok" else "FAIL fewer than 3 points must all be kept")
   else if !strictlyIncreasing idx then "FAIL indexes not strictly increasing"
   else if idx.head? != some 0 || idx.getLast? != some (n - 1) then "FAIL first or last point missing"
   else if !idx.all (· < n) then "FAIL index out of range"
   -- float evaluation of the distance may differ from the exact one by rounding: relative slack
-  else if !omittedOK pts (thr * thr * (1 + mkRat 1 1000000000)) idx then
+  else if !omittedOK pts ((thr + slack) * (thr + slack) * (1 + mkRat 1 1000000000)) idx then
     "FAIL an omitted point is farther than the threshold from the segment joining its retained neighbours"
   else if idx2 != List.range idx.length then "FAIL simplifying the simplified line removed further points"
   else "ok"
